@@ -70,6 +70,12 @@ func c14Plan(seed int64, tier string) []core.Case {
 		c.Race = i%4 == 0
 		cs = append(cs, c)
 	}
+	// capacity: caches of thousands of slots hold as many blocks as they say
+	for kind := int64(0); kind < 3; kind++ {
+		for _, n := range []int64{1024, 1025, 1500, 5000} {
+			cs = append(cs, core.Case{Kind: "capacity", P: map[string]int64{"kind": kind, "cap": n}})
+		}
+	}
 	// stress: long concurrent runs without a linearizability check (too long
 	// for the checker); decided by the race detector and by the per-operation
 	// assertions (Get/Peek never name a block of another base).
@@ -681,6 +687,8 @@ func c14Run(c core.Case) *core.Result {
 		r.Evals, r.DistinctNT = n, nt
 		r.Count("sequential_histories", n)
 		r.Sample = fmt.Sprintf("%s(%d) stats=%v: all %d operation sequences of length <= %d (first op %d)", cacheKinds[kind], capn, stats, n, L, c.Int("first"))
+	case "capacity":
+		c14Capacity(r, c)
 	case "seq-random":
 		rng := c.Rng()
 		n := c.Int("n")
@@ -906,6 +914,55 @@ func (p *pauser) pause() {
 func (s *slowBlock) Base() int64     { s.d.pause(); return s.Block.Base() }
 func (s *slowBlock) Used() bool      { s.d.pause(); return s.Block.Used() }
 func (s *slowBlock) NextBase() int64 { s.d.pause(); return s.Block.NextBase() }
+
+// lightBlock stands in for a block where only Base/Used/NextBase are called
+// (the caches call nothing else); it carries no 64 KiB buffer.
+type lightBlock struct {
+	bgzf.Block
+	base int64
+	used bool
+}
+
+func (l *lightBlock) Base() int64     { return l.base }
+func (l *lightBlock) Used() bool      { return l.used }
+func (l *lightBlock) NextBase() int64 { return l.base + 100 }
+
+func c14Capacity(r *core.Result, c core.Case) {
+	kind, n := c.Int("kind"), c.Int("cap")
+	cc, _ := c14New(kind, n, false)
+	cfg := fmt.Sprintf("%s(%d)", cacheKinds[kind], n)
+	r.Sample = map[string]any{"config": cfg, "kind": "capacity"}
+	if cc.Cap() != n {
+		r.Violate(cacheKinds[kind]+"|capacity|cap", "%s: Cap() = %d", cfg, cc.Cap())
+		return
+	}
+	for i := 0; i < n; i++ {
+		ev, ret := cc.Put(&lightBlock{base: int64(i) * 1000, used: i%3 != 0})
+		if ev != nil || !ret {
+			r.Violate(cacheKinds[kind]+"|capacity|refused-with-room", "%s: Put number %d returned (evicted=%v, retained=%v) although only %d of %d slots are taken", cfg, i+1, ev != nil, ret, i, n)
+			return
+		}
+	}
+	if cc.Len() != n {
+		r.Violate(cacheKinds[kind]+"|capacity|len", "%s: Len() = %d after %d retained Puts", cfg, cc.Len(), n)
+		return
+	}
+	for i := 0; i < n; i += 97 {
+		if ok, _ := cc.Peek(int64(i) * 1000); !ok {
+			r.Violate(cacheKinds[kind]+"|capacity|lost", "%s: block %d is not held although nothing was evicted", cfg, i)
+			return
+		}
+	}
+	if ev, ret := cc.Put(&lightBlock{base: -5, used: true}); ev == nil || !ret || cc.Len() != n {
+		r.Violate(cacheKinds[kind]+"|capacity|full", "%s: Put of a used block into the full cache returned (evicted=%v, retained=%v), Len() = %d", cfg, ev != nil, ret, cc.Len())
+		return
+	}
+	if !cache.Free(n, cc) || cc.Len() != 0 {
+		r.Violate(cacheKinds[kind]+"|capacity|free", "%s: Free(%d) did not empty the cache (Len() = %d)", cfg, n, cc.Len())
+	}
+	r.Evals, r.DistinctNT = 1, 1
+	r.Count("capacity_cases", 1)
+}
 
 func c14Concurrent(r *core.Result, c core.Case) {
 	kind, capn, stats := c.Int("kind"), c.Int("cap"), c.Int("stats") == 1
